@@ -115,7 +115,7 @@ def translate_c_from_projectq(projectq_str):
 
         if gate_name in {"H", "X", "Y", "Z", "S", "T"}:
             gate = Gate(gate_mapping[gate_name], qubit_indices[0])
-        elif gate_name in {"Rx", "Ry", "Rz", "PHASE"}:
+        elif gate_name in {"Rx", "Ry", "Rz", "R"}:
             gate = Gate(gate_mapping[gate_name], qubit_indices[0], parameter=parameters[0])
         # #TODO: Rethink the use of enums for gates to set the equality CX=CNOT and enable other refactoring
         elif gate_name in {"CX"}:
